@@ -699,9 +699,16 @@ func (k *kase) runIter(ctx context.Context, it iterSpec) bool {
 	}
 	defer closeIt()
 
+	chainEnded := false // the current run of auto-span moves has returned false on the reference
 	for ci, cmd := range it.Cmds {
 		var dOK, rOK bool
 		hasData := false
+		auto := cmd.Op == "next-auto" || cmd.Op == "prev-auto"
+		if !auto {
+			chainEnded = false
+		} else if chainEnded {
+			continue
+		}
 		k.doing = fmt.Sprintf("iterator through node %d route %s bounds [%d,%d) chunk %d, command #%d %s(%d) after %v", it.Gateway, route, it.Lo, it.Hi, it.Chunk, ci, cmd.Op, cmd.Arg, it.Cmds[:ci])
 		// The single-node reference first: if *it* does not return, the question is about
 		// cesium's iterator, not about the cluster.
@@ -760,6 +767,9 @@ func (k *kase) runIter(ctx context.Context, it iterSpec) bool {
 			}
 		}) {
 			return false
+		}
+		if auto && !rOK {
+			chainEnded = true
 		}
 		k.h.Count("iterator_commands_compared", 1)
 		if dOK != rOK {
